@@ -527,7 +527,51 @@ def rule_g(ctx: Ctx) -> None:
         ctx.fail(m, branch, adv.key, "if i > 1: ...", "the i > 1 branch bumps the line but does not restart the column")
 
 
-RULES = [rule_a, rule_b, rule_c, rule_d, rule_e, rule_f, rule_g]
+def _late_cursor_reads(tree: ast.AST) -> list[tuple[ast.Call, ast.AST]]:
+    """calls in which self._prev / self._curr is read as an argument *after* an earlier argument that moves the cursor"""
+    def moves(e: ast.AST) -> bool:
+        for x in ast.walk(e):
+            if isinstance(x, ast.Call):
+                cn = call_name(x) or ""
+                if cn.startswith(("self._parse", "self._match", "self._advance", "self._try_parse")):
+                    kw = next((k.value for k in x.keywords if k.arg == "advance"), None)
+                    if isinstance(kw, ast.Constant) and kw.value is False:
+                        continue
+                    return True
+        return False
+
+    out = []
+    for c in ast.walk(tree):
+        if not isinstance(c, ast.Call):
+            continue
+        args = list(c.args) + [k.value for k in c.keywords]
+        for i, a in enumerate(args):
+            if norm(a) in ("self._prev", "self._curr") and any(moves(b) for b in args[:i]):
+                out.append((c, a))
+    return out
+
+
+def rule_h(ctx: Ctx) -> None:
+    ctx.rule("C13.h", "position stamps use the token of the construct: in parser code self._prev / self._curr is never read as an argument of a call after an earlier argument "
+                      "of the same call has moved the cursor (arguments are evaluated left to right, so the token read is no longer the construct's own)")
+    probe = ast.parse("x = self.expression(exp.Star(except_=self._parse_star_op('EXCEPT')), token=self._prev)\n")
+    ctx.require(len(_late_cursor_reads(probe)) == 1, "internal: C13.h matcher no longer recognises its positive control")
+    n = 0
+    for mn, m in ctx.repo.modules.items():
+        if not (mn == "sqlglot.parser" or mn.startswith("sqlglot.parsers.")):
+            continue
+        n += len(m.of_type(ast.Call))
+        for c, a in _late_cursor_reads(m.tree):
+            f = m.enclosing_func(c)
+            where = f.key if f else mn
+            ctx.fail(m, c, where, norm(c, 100), f"`{norm(a)}` is evaluated after an earlier argument of this call consumed tokens: the position recorded for the node is that of a later "
+                                               f"token (e.g. the closing parenthesis of `* EXCEPT (...)` instead of the star)")
+    ctx.ok("parser|no cursor read after a cursor-moving sibling argument", {"calls_scanned": n})
+    ctx.count("parser_calls_scanned", n)
+    ctx.min_instances("parser_calls_scanned", n, 5000)
+
+
+RULES = [rule_a, rule_b, rule_c, rule_d, rule_e, rule_f, rule_g, rule_h]
 EXPLANATION = (
     "Representation invariants of the scanner cursor checked symbolically on every block that writes _current (linear "
     "normal form of offsets with local resolution, so the str.find and alnum fast paths are covered), the token stamp, "
